@@ -6,7 +6,7 @@ histories on the real binary; the expected overlay is recomputed in Python from 
 `git blame --line-porcelain` + the raw notes (original path, original line), compared with
 `git-ai blame` in every output format, with the Lean overlay model and (older revisions, -w,
 ignore-revs through the library API) with `Repository::blame_analysis` via the harness."""
-import concurrent.futures, json, os, random, subprocess, traceback
+import concurrent.futures, json, os, random, re, subprocess, traceback
 
 from vlib import common as C
 from vlib import e2e
@@ -22,13 +22,20 @@ THEOREMS = [
     "GitAi.BlameOverlay.rename_witness_fixed",
     "GitAi.BlameOverlay.formats_agree",
     "GitAi.BlameOverlay.json_key_roundtrip",
-    "GitAi.BlameOverlay.json_ai_lines_partial",
-    "GitAi.BlameOverlay.witness_json_name_clash",
+    "GitAi.BlameOverlay.json_ai_lines",
+    "GitAi.BlameOverlay.json_lists_exactly_credited",
+    "GitAi.BlameOverlay.show_prompt_human_unchanged",
+    "GitAi.BlameOverlay.name_clash_fixed",
+    "GitAi.BlameRange.l_arg_spec",
+    "GitAi.BlameRange.l_arg_witnesses",
 ]
 CORPUS_DIR = os.path.join(C.VERIF, "corpus", "C09")
 
-NAMES = ["f.txt", "src/main.rs", "sp ace.txt", "日本.txt", "-dash.txt", "deep/er/x.py", "q'uote.md"]
-RENAMES = ["g.txt", "src/lib.rs", "new name.txt", "本日.txt", "moved/y.py", "-other.txt"]
+# 'ta\tb.txt' and 'q"uote.txt' are C-quoted by git under either core.quotePath setting, the CJK names under
+# the default one (a name with a backslash is not used: `git-ai checkpoint` does not pick such a file up)
+NAMES = ["f.txt", "src/main.rs", "sp ace.txt", "日本.txt", "-dash.txt", "deep/er/x.py", "q'uote.md", "ta\tb.txt", 'q"uote.txt']
+RENAMES = ["g.txt", "src/lib.rs", "new name.txt", "本日.txt", "moved/y.py", "-other.txt", 'new"q\tt.txt']
+CQUOTED = {"日本.txt", "本日.txt", "ta\tb.txt", 'q"uote.txt', 'new"q\tt.txt'}
 TOOLS = ["toolA", "toolB", "mock_agent"]
 
 
@@ -49,12 +56,13 @@ class Scn:
         self.ws_commits = []     # whitespace-only commits (ignore-rev candidates)
         self.tags = set()
         self.script = script
+        self.nren = {}           # file -> how many times it has been renamed
 
     def fresh(self, k):
         out = []
         for _ in range(k):
             self.counter += 1
-            out.append(f"line {self.counter} {self.rng.choice(['alpha', 'beta', 'gamma', 'x = 1;', '{', '}', 'deadbeef 1 2 3', 'author x'])}")
+            out.append(f"line {self.counter} {self.rng.choice(['alpha', 'beta', 'gamma', 'x = 1;', '{', '}', 'deadbeef 1 2 3', 'author x'])} stuffing{self.counter}")
         return out
 
     def read_lines(self, name):
@@ -145,6 +153,9 @@ class Scn:
         if edit:
             self.edit(g)
         self.files[self.files.index(f)] = g
+        self.nren[g] = self.nren.pop(f, 0) + 1
+        if self.nren[g] >= 2:
+            self.tags.add("renamed-twice")
         self.log.append(["rename", f, g, edit])
         self.tags.add("rename+edit" if edit else "pure-rename")
         self.commit(f"rename {f}")
@@ -160,6 +171,46 @@ class Scn:
         self.log.append(["copy", f, g])
         self.tags.add("copy")
         self.commit(f"copy {f}")
+
+    def op_move(self):
+        """a human moves a block of lines inside one file (what `git blame -M` detects)"""
+        cands = [x for x in self.files if x != "empty.txt" and len(self.read_lines(x)) >= 5]
+        if not cands:
+            return
+        f = self.rng.choice(cands)
+        ls = self.read_lines(f)
+        k = min(3, len(ls) - 2)
+        p = self.rng.randint(0, len(ls) - k)
+        blk = ls[p:p + k]
+        del ls[p:p + k]
+        qs = [q for q in range(len(ls) + 1) if q != p]
+        q = self.rng.choice(qs)
+        ls[q:q] = blk
+        self.write_lines(f, ls)
+        self.log.append(["move", f, p, k, q])
+        self.tags.add("move-in-file")
+        self.commit("move a block around")
+
+    def op_xmove(self):
+        """a human moves a block of lines from one file to another in one commit (`git blame -C`)"""
+        cands = [x for x in self.files if x != "empty.txt" and len(self.read_lines(x)) >= 4]
+        if not cands or len(self.files) < 2:
+            return
+        f = self.rng.choice(cands)
+        g = self.rng.choice([x for x in self.files if x != f])
+        ls = self.read_lines(f)
+        k = min(3, len(ls) - 1)
+        p = self.rng.randint(0, len(ls) - k)
+        blk = ls[p:p + k]
+        del ls[p:p + k]
+        self.write_lines(f, ls)
+        gl = self.read_lines(g)
+        q = self.rng.randint(0, len(gl))
+        gl[q:q] = blk
+        self.write_lines(g, gl)
+        self.log.append(["xmove", f, p, k, g, q])
+        self.tags.add("move-across-files")
+        self.commit("move a block to another file")
 
     def op_ws(self):
         f = self.rng.choice([x for x in self.files if x != "empty.txt"] or self.files)
@@ -307,7 +358,7 @@ class Scn:
                     getattr(self, "op_" + name)()
             return
         nops = self.rng.randint(3, 7)
-        ops = ["ai", "ai", "ai", "human", "rename", "rename", "copy", "ws", "merge", "craft"]
+        ops = ["ai", "ai", "ai", "human", "rename", "rename", "copy", "ws", "merge", "craft", "move", "xmove"]
         for _ in range(nops):
             getattr(self, "op_" + self.rng.choice(ops))()
         if not (self.tags & {"ai-edit"}):
@@ -417,14 +468,27 @@ def model_notes(notes, blines):
 
 # ---------------------------------------------------------------- one query against the binary
 
-def run_query(scn, notes, fname, opts, rev_label, out):
-    """opts: list of CLI options valid for both git blame and git-ai blame."""
-    r = scn.r
+def run_query(scn, notes, fname, opts, rev_label, out, r=None, ai_tail=None, may_refuse=None, ignored_ok=None,
+              extra_tags=()):
+    """opts: list of CLI options for plain `git blame` (the reference); git-ai blame gets the same options
+    followed by the path, or `ai_tail` when given.
+    may_refuse=<family>: a form git-ai blame may not support — it must then refuse (non-zero exit, nothing on
+    stdout); when it answers, the answer is held to the same comparison as every other query.
+    ignored_ok=<plain opts>: move/copy detection family — see the classification below."""
+    r = r or scn.r
     q = {"scenario": scn.sid, "file": fname, "opts": opts, "rev": rev_label}
     rc, ptxt, perr = r.plain_git("blame", "--line-porcelain", *opts, "--", fname)
     if rc != 0:
         out["skipped"] += 1
         return
+    ap = ai_path(fname)
+    if ai_tail is None:
+        ai_tail = [*opts, ap]
+    else:
+        q["ai_args"] = ai_tail
+
+    def ai_blame(*flags):
+        return r.ai("blame", *flags, *ai_tail)
     try:
         blines, groups = U.parse_line_porcelain(ptxt)
     except Exception as e:
@@ -434,7 +498,16 @@ def run_query(scn, notes, fname, opts, rev_label, out):
     by_final = {bl["final"]: bl for bl in blines}
     renamed = any(bl["filename"] != fname for bl in blines)
     ai_n = sum(1 for v in exp.values() if v[0] == "ai")
-    tags = [f"opts:{'+'.join(sorted(set(o for o in opts if o.startswith('-')))) or 'none'}", f"rev:{'head' if rev_label == 'HEAD' else 'older'}"]
+    tags = [f"opts:{'+'.join(sorted(set(o for o in opts if o.startswith('-')))) or 'none'}",
+            f"rev:{'head' if rev_label == 'HEAD' else ('shallow-clone' if str(rev_label).startswith('shallow') else 'older')}"]
+    tags += list(extra_tags)
+    nL = sum(1 for o in opts if o == "-L")
+    if nL > 1:
+        tags.append("L:several-ranges")
+    if fname in CQUOTED or any(bl["filename"] in CQUOTED for bl in blines):
+        tags.append("c-quoted-path")
+    if len({bl["filename"] for bl in blines} | {fname}) >= 3:
+        tags.append("lines-from-two-older-paths")
     if renamed:
         tags.append("lines-from-other-path")
     if ai_n:
@@ -448,20 +521,47 @@ def run_query(scn, notes, fname, opts, rev_label, out):
     key = json.dumps([scn.log, fname, opts, rev_label], ensure_ascii=False)
     out["keys"].append(key)
     wit = dict(q, ops=scn.log)
-    ap = ai_path(fname)
 
     def fail(sig, what, **kw):
         out["fail"].append((sig, dict(wit, **kw), what))
+
+    if may_refuse:
+        rc, jt, jerr = ai_blame("--json")
+        if rc != 0:
+            out["tags"].append(f"refused:{may_refuse}")
+            if jt.strip():
+                fail("exit:refusal-with-output", f"git-ai blame refuses {ai_tail} (exit {rc}) but prints an answer", output=jt[:300])
+            return
+        out["tags"].append(f"answered:{may_refuse}")
+    if ignored_ok is not None:
+        # `-M` / `-C`: parse_blame_args accepts them, blame_hunks_for_ranges does not pass them to git blame
+        # (known finding opts:move-copy-detection-ignored). Classified only when git-ai's commits are exactly
+        # those of plain git blame WITHOUT the flag while git blame WITH the flag names other commits.
+        rc0, ptxt0, _ = r.plain_git("blame", "--line-porcelain", *ignored_ok, "--", fname)
+        if rc0 == 0:
+            map0 = {bl["final"]: bl["commit"] for bl in U.parse_line_porcelain(ptxt0)[0]}
+            mapf = {bl["final"]: bl["commit"] for bl in blines}
+            if map0 != mapf:
+                out["tags"].append("move-copy:changes-git-answer")
+                rc1, pt1, _ = ai_blame("--line-porcelain")
+                if rc1 == 0 and U.porcelain_commits(pt1) == map0:
+                    d = sorted(l for l in mapf if mapf[l] != map0.get(l))
+                    fail("opts:move-copy-detection-ignored",
+                         "git-ai blame accepts -M / -C but answers as if the flag were absent (git blame with the flag names other commits)",
+                         lines=d[:10], git_with_flag={str(l): mapf[l][:8] for l in d[:10]}, git_ai={str(l): map0[l][:8] for l in d[:10]})
+                    return
+            else:
+                out["tags"].append("move-copy:no-effect-here")
 
     # an empty file has no line to attribute: git blame prints nothing; git-ai blame refuses it
     # ("Invalid line range: 1:0", asserted by /repo tests/blame_comprehensive.rs test_blame_edge_empty_file).
     # C09 speaks about lines, so this is recorded as an observation, not as a failure.
     if not blines:
-        rc, _, jerr = r.ai("blame", "--json", *opts, ap)
+        rc, _, jerr = ai_blame("--json")
         out["tags"].append("observation:empty-file-exit-%d" % rc)
         return
     # ---- JSON
-    rc, jt, jerr = r.ai("blame", "--json", *opts, ap)
+    rc, jt, jerr = ai_blame("--json")
     got_json = None
     if rc != 0:
         fail("exit:git-ai-json-fails", f"git blame succeeds but git-ai blame --json exits {rc}: {jerr.strip()[:200]}")
@@ -472,18 +572,13 @@ def run_query(scn, notes, fname, opts, rev_label, out):
             fail("format:json-unparsable", str(e), output=jt[:400])
     exp_ai = {l: v[1] for l, v in exp.items() if v[0] == "ai"}
     amb = {l for l, v in exp.items() if v[0] == "ambiguous"}
-    # known finding family: a human author whose *name* is a session hash credited in this output is
-    # indistinguishable from that session in line_authors (string-keyed) — classified separately
+    # a human author whose *name* is a session hash credited in this output (repaired in /repo 47c84a67: the
+    # kind of a line is kept apart from the display string) — tagged for the distribution, compared like any line
     clash = {l for l, v in exp.items() if v[0] == "human" and v[1] in set(exp_ai.values())}
     if clash:
         out["tags"].append("name-clash-lines")
     if got_json is not None:
         diff = {l for l in set(exp_ai) | set(got_json) if l not in amb and exp_ai.get(l) != got_json.get(l)}
-        cl = {l for l in diff if l in clash}
-        if cl:
-            fail("json:human-name-equals-prompt-hash", "a human author named like a session hash is listed by --json as that session",
-                 lines=sorted(cl)[:10], got={str(l): got_json.get(l) for l in sorted(cl)[:10]})
-        diff -= clash
         if diff:
             lost = [l for l in diff if l in exp_ai and l not in got_json]
             if lost and len(lost) == len(diff) and all(by_final[l]["filename"] != fname for l in lost):
@@ -495,8 +590,9 @@ def run_query(scn, notes, fname, opts, rev_label, out):
                  got={str(l): got_json.get(l) for l in sorted(diff)[:10]},
                  porcelain=[[bl["final"], bl["orig"], bl["commit"][:8], bl["filename"]] for bl in blines if bl["final"] in diff][:10])
     # ---- default + --show-prompt
+    got_sp = None
     for flag in ([], ["--show-prompt"]):
-        rc, dt, derr = r.ai("blame", *flag, *opts, ap)
+        rc, dt, derr = ai_blame(*flag)
         if rc != 0:
             fail("exit:git-ai-default-fails", f"git-ai blame {flag} exits {rc}: {derr.strip()[:200]}")
             continue
@@ -510,6 +606,8 @@ def run_query(scn, notes, fname, opts, rev_label, out):
             fail("format:default-lines", "default format does not list exactly the lines git blame lists",
                  got=sorted(rows)[:20], expected=sorted(by_final)[:20])
             continue
+        if flag:
+            got_sp = {l: a.strip() for l, (_, a) in rows.items()}
         bad_author, bad_commit = [], []
         for l, (shacol, author) in rows.items():
             v = exp[l]
@@ -521,10 +619,7 @@ def run_query(scn, notes, fname, opts, rev_label, out):
             else:
                 want = None
             if want is not None and author != want.strip():
-                if l in clash:
-                    fail("json:human-name-equals-prompt-hash", f"default format {flag} shows a human line under a session", row=[l, author, want])
-                else:
-                    bad_author.append([l, author, want])
+                bad_author.append([l, author, want])
             marker = shacol.startswith("^")
             sha = shacol.lstrip("^")
             if not bl["commit"].startswith(sha) or len(sha) < 4:
@@ -549,7 +644,7 @@ def run_query(scn, notes, fname, opts, rev_label, out):
             if got_json is not None:
                 dis = []
                 for l, (_, author) in rows.items():
-                    if exp[l][0] == "ambiguous" or l in clash:
+                    if exp[l][0] == "ambiguous":
                         continue
                     h = got_json.get(l)
                     if h is not None:
@@ -565,7 +660,7 @@ def run_query(scn, notes, fname, opts, rev_label, out):
     # ---- porcelain family
     want_c = {l: bl["commit"] for l, bl in by_final.items()}
     for flag, inc in (("--porcelain", False), ("--line-porcelain", False), ("--incremental", True)):
-        rc, pt, perr2 = r.ai("blame", flag, *opts, ap)
+        rc, pt, perr2 = ai_blame(flag)
         if rc != 0:
             fail("exit:git-ai-porcelain-fails", f"git-ai blame {flag} exits {rc}: {perr2.strip()[:200]}")
             continue
@@ -582,8 +677,100 @@ def run_query(scn, notes, fname, opts, rev_label, out):
                          "render_req": {"op": "bo_render", "full": True,
                                         "groups": [{k: v for k, v in g.items() if k != "_n"} for g in groups]},
                          "git_lines": (ptxt.split("\n")[:-1] if ptxt.endswith("\n") else ptxt.split("\n")) if ptxt else [],
-                         "got_json": got_json, "exp_ai": exp_ai, "amb": sorted(amb),
+                         "got_json": got_json, "got_sp": got_sp, "exp_ai": exp_ai, "amb": sorted(amb),
                          "ascii_paths": all(ord(c) < 128 for g in groups for c in g["filename"] + ((g["previous"] or ["", ""])[1]))})
+
+
+def extra_queries(scn, notes, rng, out, head):
+    """query families beyond plain / -L a,b / --ignore-rev, all on main's HEAD (the work tree is there):
+    relative and open -L forms, several ranges, regex ranges, ignore-revs files (explicit, blame.ignoreRevsFile,
+    auto-detected .git-blame-ignore-revs, --no-ignore-revs-file), -M / -C, forms git-ai may refuse (-w, a
+    revision argument), and a real shallow clone (boundary commits)."""
+    r = scn.r
+    files = [f for f in scn.files if r.exists(f) and len(scn.read_lines(f)) >= 2]
+    rng.shuffle(files)
+    hot = [f for f in files if f in CQUOTED or scn.nren.get(f, 0) >= 2]
+    files = (hot[:1] + [f for f in files if f not in hot[:1]])[:2]
+    older = [c for c in scn.commits[:-1] if c != head]
+    for f in files:
+        ls = scn.read_lines(f)
+        n = len(ls)
+        a = rng.randint(1, n)
+        k = rng.randint(1, n - a + 1)
+        b = rng.randint(1, n)
+        k2 = rng.randint(1, b + 1)
+        # relative ends (repaired in /repo f2474c34) and open ends / single number (repaired in /repo 821fad3d)
+        forms = [[f"{a},+{k}"], [f"{b},-{k2}"], [f"{a},"], [f",{b}"], [f"{a}"]]
+        two = sorted(rng.sample(range(1, n + 1), min(n, 3)))
+        if len(two) == 3:
+            forms.append([f"{two[0]},{two[0]}", f"{two[1]},+1", f"{two[2]},"])
+            forms.append([f"{two[2]},", f",{two[0]}"])
+        for form in rng.sample(forms, min(len(forms), 4)):
+            run_query(scn, notes, f, [x for part in form for x in ("-L", part)], "HEAD", out,
+                      extra_tags=["L:" + "|".join("rel+" if ",+" in p else "rel-" if ",-" in p else "open-end" if p.endswith(",") else
+                                                  "open-start" if p.startswith(",") else "single-number" if "," not in p else "a,b" for p in form)])
+        # regex ranges: git-ai refuses them today; if it ever answers, the answer is compared
+        m = re.search(r"\d+", rng.choice(ls))
+        word = m.group(0) if m else "line"
+        for form in ([f"/{word}/"], [f"/{word}/,+2"], [f"1,/{word}/"]):
+            if rng.random() < 0.5:
+                run_query(scn, notes, f, ["-L", form[0]], "HEAD", out, may_refuse="-L-regex", extra_tags=["L:regex"])
+        # forms of plain git blame that git-ai's own parser may not know
+        if rng.random() < 0.5:
+            run_query(scn, notes, f, ["-w"], "HEAD", out, may_refuse="-w-on-cli")
+        if older:
+            sha = rng.choice(older)
+            run_query(scn, notes, f, [sha], sha, out, ai_tail=[sha, "--", ai_path(f)], may_refuse="revision-argument")
+        # move / copy detection
+        for mc in (["-M"], ["-C"], ["-C", "-C"]):
+            if rng.random() < 0.6:
+                run_query(scn, notes, f, mc, "HEAD", out, ignored_ok=[])
+        # ignore-revs files
+        ign = [c for c in (scn.ws_commits + scn.commits[1:]) if c != head]
+        if ign:
+            picks = rng.sample(ign, min(len(ign), rng.randint(1, 2)))
+            body = "# revisions to skip\n" + "".join(c + "\n" for c in picks) + "\n"
+            mode = rng.choice(["explicit", "auto", "config", "auto+no"])
+            ext = os.path.join(scn.env.root, "ignore-these")
+            auto = os.path.join(r.path, ".git-blame-ignore-revs")
+            if mode == "explicit":
+                with open(ext, "w") as fh:
+                    fh.write(body)
+                run_query(scn, notes, f, ["--ignore-revs-file", ext], "HEAD", out, extra_tags=["ignore-revs-file:explicit"])
+            elif mode == "config":
+                with open(ext, "w") as fh:
+                    fh.write(body)
+                r.plain_git("config", "blame.ignoreRevsFile", ext)
+                # plain git reads the setting itself, so the reference needs no option
+                run_query(scn, notes, f, [], "HEAD+blame.ignoreRevsFile", out, extra_tags=["ignore-revs-file:config"])
+                r.plain_git("config", "--unset", "blame.ignoreRevsFile")
+            else:
+                with open(auto, "w") as fh:
+                    fh.write(body)
+                if mode == "auto":
+                    # git-ai picks the file up by itself; plain git needs to be told
+                    run_query(scn, notes, f, ["--ignore-revs-file", auto], "HEAD+auto", out, ai_tail=[ai_path(f)],
+                              extra_tags=["ignore-revs-file:auto-detected"])
+                else:
+                    run_query(scn, notes, f, [], "HEAD+auto-disabled", out, ai_tail=["--no-ignore-revs-file", ai_path(f)],
+                              extra_tags=["ignore-revs-file:auto-detection-disabled"])
+                os.unlink(auto)
+    # ---- a real shallow clone: its oldest commits are boundary commits with cut-off parents
+    if len(scn.commits) >= 3 and files:
+        depth = rng.randint(1, 3)
+        dst = os.path.join(scn.env.root, "shallow")
+        rc, _, err = r.plain_git("clone", "-q", "--depth", str(depth), "--branch", "main", "file://" + r.path, dst)
+        if rc == 0:
+            r2 = e2e.Repo(scn.env, dst)
+            r2.plain_git("fetch", "-q", "origin", "refs/notes/ai:refs/notes/ai")
+            n2 = Notes(r2)
+            for f in files:
+                run_query(scn, n2, f, [], f"shallow-depth-{depth}", out, r=r2, extra_tags=["shallow-clone"])
+                nl = len(scn.read_lines(f))
+                a = rng.randint(1, nl)
+                run_query(scn, n2, f, ["-L", f"{a},"], f"shallow-depth-{depth}", out, r=r2, extra_tags=["shallow-clone"])
+        else:
+            out["notes"].append("shallow clone failed: " + err.strip()[:200])
 
 
 def pick_ranges(rng, n):
@@ -651,6 +838,10 @@ def run_scenario(seed, k, script=None, tier="quick"):
                         api_queries.append(aq)
                 if label != "HEAD":
                     r.plain_git("checkout", "-q", "main")
+            try:
+                extra_queries(scn, notes, rng, out, head)
+            except Exception as e:
+                out["fail"].append(("harness:extra-queries-crashed", {"scenario": sid, "trace": traceback.format_exc()[-1500:]}, str(e)))
             # ---- API queries through the harness (one process per scenario, isolated env)
             if api_queries and os.path.exists(C.HARNESS_BIN):
                 qf = os.path.join(env.root, "queries.jsonl")
@@ -701,6 +892,15 @@ def run_scenario(seed, k, script=None, tier="quick"):
                         out["fail"].append(("overlay:api-differs", dict(wit, lines=d[:10], got={str(l): la.get(l) for l in d[:10]},
                                                                        expected={str(l): want.get(l) for l in d[:10]}),
                                             "Repository::blame_analysis differs from git blame + notes"))
+                    # the kind of every line (AI session vs human) as the analysis exposes it
+                    lph = {l: h for l, h in got["ok"].get("line_prompt_hashes", [])}
+                    want_ai = {l: v[1] for l, v in exp.items() if v[0] == "ai"}
+                    ambl = {l for l, v in exp.items() if v[0] == "ambiguous"}
+                    d2 = sorted(l for l in set(lph) | set(want_ai) if l not in ambl and lph.get(l) != want_ai.get(l))
+                    if d2:
+                        out["fail"].append(("overlay:api-line-kinds-differ", dict(wit, lines=d2[:10], got={str(l): lph.get(l) for l in d2[:10]},
+                                                                                 expected={str(l): want_ai.get(l) for l in d2[:10]}),
+                                            "BlameAnalysisResult.line_prompt_hashes is not exactly the lines the notes credit to a session"))
             out["ncmd"] = env.ncmd
     except Exception as e:
         out["fail"].append(("harness:scenario-crashed", {"scenario": sid, "trace": traceback.format_exc()[-1500:]}, str(e)))
@@ -766,6 +966,13 @@ def phase_e2e(res, seed, n, tier, scripts=()):
                 if d:
                     bad_overlay.append({"q": m["q"], "lines": sorted(d)[:10], "model": {l: mj.get(l) for l in sorted(d)[:10]},
                                         "binary": {l: gj.get(l) for l in sorted(d)[:10]}})
+            if m.get("got_sp") is not None:
+                msp = {int(l): a.strip() for l, a in ro["ok"].get("show_prompt", [])}
+                gsp = {int(l): a for l, a in m["got_sp"].items()}
+                d = [l for l in set(gsp) | set(msp) if l not in amb and gsp.get(l) != msp.get(l)]
+                if d:
+                    bad_overlay.append({"q": m["q"], "show_prompt_lines": sorted(d)[:10], "model": {l: msp.get(l) for l in sorted(d)[:10]},
+                                        "binary": {l: gsp.get(l) for l in sorted(d)[:10]}})
         if "lines" not in rr or rr["lines"] != m["git_lines"]:
             first = None
             if "lines" in rr:
@@ -774,7 +981,7 @@ def phase_e2e(res, seed, n, tier, scripts=()):
                         first = [a, b]
                         break
             bad_render.append({"q": m["q"], "first_diff": first, "model_n": len(rr.get("lines", [])), "git_n": len(m["git_lines"])})
-    res.obligation("e2e correspondence: Lean overlay (bo_overlay) on git's porcelain + raw notes = git-ai blame --json",
+    res.obligation("e2e correspondence: Lean overlay (bo_overlay) on git's porcelain + raw notes = git-ai blame --json / --show-prompt author column",
                    not bad_overlay, "correspondence")
     if bad_overlay:
         res.broken_tie("correspondence:bo_overlay-e2e", {"disagreements": len(bad_overlay), "first": bad_overlay[0]})
@@ -797,10 +1004,13 @@ def load_scripts():
 
 def run(tier, seed):
     res = C.Result(PROP, tier, seed)
-    res.rule = ("in-process: one case = one porcelain text (structured from generated blame entries, or mutated) or one "
-                "quoted path sent to both the Rust function and the Lean model; end-to-end: one case = one "
-                "(history, file, revision, option set) query evaluated on the real binary in all six output modes "
-                "(+ library API queries with -w / explicit revision); distinct = distinct request / (ops, file, opts, rev)")
+    res.rule = ("in-process: one case = one porcelain text (structured from generated blame entries, or mutated), one "
+                "quoted path or one -L argument sent to both the Rust function and the Lean model; end-to-end: one case = one "
+                "(history, file, revision / clone, option set) query evaluated on the real binary in all six output modes "
+                "(+ library API queries with -w / explicit revision); option sets: none, -L a,b / a,+n / a,-n / a, / ,b / a / "
+                "several, --ignore-rev, --ignore-revs-file (explicit, blame.ignoreRevsFile, auto-detected, detection disabled), "
+                "-M, -C, -C -C, a real shallow clone, and forms git-ai may refuse (-L /re/, -w, <rev> --) which must be refused "
+                "without output or answered like git; distinct = distinct request / (ops, file, opts, rev)")
     res.trusted = ["Lean 4.33 kernel (axioms: propext, Quot.sound, Classical.choice only)",
                    "git 2.39 blame itself (the reference; its --line-porcelain grammar is the Lean renderLinePorcelain, "
                    "re-validated on every e2e query against git's real output)",
@@ -808,7 +1018,10 @@ def run(tier, seed):
                    "foreign prompt lookup (git grep over refs/notes/ai) is an environment parameter of the model"]
     res.assumptions = ["u32 line numbers modelled as Nat with the overflow of start+count as an explicit panic outcome",
                        "metadata fields other than author / boundary / filename are consumed but not modelled",
-                       "git prints a filename line for every blame entry (hfn); entries ascend by final line (formats_agree)"]
+                       "git prints a filename line for every blame entry (hfn); entries ascend by final line (formats_agree)",
+                       "-L: only the numeric forms are modelled (l_arg_spec); regex forms are refused by git-ai (observed, tagged refused:*); "
+                       "git's clamping of an end beyond the file and swapping of end<start are refusals in git-ai (pinned by /repo tests)",
+                       "-M / -C are accepted and ignored by git-ai blame (known finding opts:move-copy-detection-ignored)"]
     C.phase_proofs(res, PROP, THEOREMS)
     ok, out = C.build_harness()
     if not ok:
